@@ -1,6 +1,7 @@
 import EaselModel.WorkQueue.Lemmas
 import EaselModel.Dsqdata.CodecLemmas
 import EaselModel.Dsqdata.LoaderLemmas
+import EaselModel.Dsqdata.InPlace
 import EaselModel.Threads.Lemmas
 import EaselModel.Pipeline.Progress
 /-! # C12 — property theorems (statements + glue only; lemmas live in WorkQueue/*.lean, Dsqdata/*.lean)
@@ -140,6 +141,24 @@ theorem codec_eod_last (d : List UInt8) (hd : ∀ x ∈ d, x ≤ 30) :
 theorem codec_unpack_chunk (ds : List (List UInt8)) (hd : ∀ d ∈ ds, ∀ x ∈ d, x ≤ 30) :
     unpackChunk true (ds.flatMap pack5) = some ds ∧ unpackChunk false (ds.flatMap pack2) = some ds :=
   ⟨unpackChunk_pack5 ds hd, unpackChunk_pack2 ds hd⟩
+
+/-- **Packing in place never overwrites an unread residue** (`esl_dsqdata_Write` packs into `sq->dsq` itself).
+    Packet `j` goes to bytes `4j … 4j+3`; residue `i` lives in byte `i`. When packet `j` is stored, the residues read so
+    far (`segs` mirrors the packers' loops: one entry per packet, same length as the packet list) are either all of
+    them, or at least `6 (j+1) ≥ 4j + 4` - so every byte the packet covers has been read.
+    (The C comment's "`4P ≤ n` or `n = 0`" is not literally true - `n = 1` gives `P = 1` - which is why the buffer
+    must hold at least one packet: `ESL_DASSERT1(sq->salloc >= 4)`.) -/
+theorem codec_pack_in_place (d : List UInt8) :
+    (segs5 d).length = (pack5Loop d).length ∧ (segs2 d none).length = (pack2Loop d none).length ∧
+    (∀ j, j < (segs5 d).length → ((segs5 d).take (j + 1)).sum = d.length ∨ 4 * j + 4 ≤ ((segs5 d).take (j + 1)).sum) ∧
+    (∀ j, j < (segs2 d none).length → ((segs2 d none).take (j + 1)).sum = d.length ∨ 4 * j + 4 ≤ ((segs2 d none).take (j + 1)).sum) := by
+  refine ⟨segs5_length d, segs2_length d none, fun j hj => ?_, fun j hj => ?_⟩
+  · rcases goodSegs_prefix _ _ (segs5_good d) j hj with h | h
+    · exact Or.inl h
+    · exact Or.inr (by omega)
+  · rcases goodSegs_prefix _ _ (segs2_good d none) j hj with h | h
+    · exact Or.inl h
+    · exact Or.inr (by omega)
 
 example : (∀ x ∈ [0, 1, 2, 3, 15, 30, 0, (7 : UInt8)], x ≤ 30) := by decide
 example : unpack2 (pack2 [0, 1, 2, 3, 15, 30, 0, 7]) = some ([0, 1, 2, 3, 15, 30, 0, 7], 2) := by decide +kernel
